@@ -476,7 +476,7 @@ def cache_probes(xodr, opts, digest_hex, variants):
                 outcome = "error:" + type(e).__name__
             hdr = snet_b[:76]
             results.append(dict(var=var, outcome=outcome, version=(struct.unpack("<I", hdr[:4])[0] if len(hdr) >= 4 else None),
-                                hdr_len=len(hdr), file_len=len(snet_b), hdr_hex=hdr.hex(),
+                                hdr_len=len(hdr), file_len=len(snet_b), orig_len=len(good_snet), hdr_hex=hdr.hex(),
                                 digest=hdr[4:68].hex(), optdigest=hdr[68:76].hex(),
                                 map_digest=hashlib.blake2b(map_b).hexdigest(), opts=o))
     finally:
